@@ -1759,8 +1759,24 @@ class Interp:
                 # parameters
                 res = env[con.extra["returns_param"]]
             elif con.returns is not None:
-                res = self.fresh(con.returns, self.namer.fresh(
-                    f"ret.{con.func}@{self.cur_line}"))
+                rty = con.returns
+                if isinstance(rty, str) and rty.startswith("ParamTuple("):
+                    # the callee returns a tuple of (the objects bound to)
+                    # its own parameters
+                    res = tuple(env[n.strip()] for n in
+                                rty[len("ParamTuple("):-1].split(","))
+                    rty = None
+                elif isinstance(rty, str) and rty.startswith("StructOf("):
+                    # an array of the structured dtype bound to a parameter
+                    dv = env.get(rty[len("StructOf("):-1])
+                    if not hasattr(dv, "fields"):
+                        raise Unsupported(f"{rty}: the argument is not a "
+                                          f"structured dtype value")
+                    rty = "Struct(" + ",".join(
+                        f"{n}:{t}" for n, t in dv.fields) + ")"
+                if rty is not None:
+                    res = self.fresh(rty, self.namer.fresh(
+                        f"ret.{con.func}@{self.cur_line}"))
             self.old_env, self.result = old, res
             saved_fin, saved_gv = self.final_env, self.ghost_vals
             # the callee's final locals / ghosts are existentials here
